@@ -112,8 +112,11 @@ fn check_utf8(v: &[u8]) {
         let b = String::from_utf8(v.to_vec()).map(|s| s.into_bytes()).ok();
         match (a, b) {
             (Ok(s), None) => {
-                core::mem::forget(s);
-                report(format!("MISMATCH from_utf8 {} got=Ok want=Err", hex(v)));
+                // never read or drop such a value; but whether it is told apart from None can be asked without reading it
+                let o = Some(s);
+                let none = o.is_none();
+                core::mem::forget(o);
+                report(format!("MISMATCH from_utf8 {} got=Ok want=Err{}", hex(v), if none { " NICHE: Some(value) reads as None" } else { "" }));
             }
             (a, b) => {
                 let a = a.map(|s| s.as_bytes().to_vec()).ok();
@@ -329,6 +332,17 @@ fn main() {
                         for b in l.as_bytes() { write!(out, "{:02x}", b).unwrap(); }
                         out.push('\n');
                     }
+                    total += 1;
+                }
+            }
+            // a completely full inline buffer (16 bytes: the last byte is text, not a tag) ending in every byte >= 0x80,
+            // after ASCII and after the start of a longer character
+            for last in 0x80u16..=0xff {
+                for pre in [&b"abcdefghijklmno"[..], &b"abcdefghijklm\xc3"[..], &b"abcdefghijkl\xe2\x82"[..], &b"abcdefghijk\xf0\x9f\x98"[..]] {
+                    let mut v = pre.to_vec();
+                    while v.len() < 15 { v.push(b'z'); }
+                    v.push(last as u8);
+                    check_utf8(&v);
                     total += 1;
                 }
             }
